@@ -60,7 +60,22 @@ def run_cvc5(smt2, timeout_s=None):
     return first, dt, out
 
 
-def prove(assumptions, goal, seed=0, timeout_ms=None, use_cvc5=True, both=False, lemmas=None, split_depth=0):
+def prove(assumptions, goal, seed=0, timeout_ms=None, use_cvc5=True, both=False, lemmas=None, split_depth=0, deepen=2):
+    """prove1 + iterative deepening of the definitional case split when refuted: a counter-model found with stuck spec
+    applications may be spurious; unfolding them further either turns the verdict into `proved` or makes the model concrete."""
+    v = prove1(assumptions, goal, seed, timeout_ms, use_cvc5, both, lemmas, split_depth)
+    d = split_depth
+    while v.status == 'refuted' and d < split_depth + deepen:
+        d += 1
+        v2 = prove1(assumptions, goal, seed, timeout_ms, False, False, lemmas, d)
+        if v2.status == 'unknown':
+            break
+        v2.seconds += v.seconds
+        v = v2
+    return v
+
+
+def prove1(assumptions, goal, seed=0, timeout_ms=None, use_cvc5=True, both=False, lemmas=None, split_depth=0):
     """Validity of (/\\ assumptions) => goal.  Spec functions are unfolded by rewriting (vc/norm.py); proved
     lemmas are instantiated by trigger matching on the unfolded terms (vc/lemmas.py)."""
     from . import norm, lemmas as lem
